@@ -488,6 +488,8 @@ func (f *Federation) EventStream(stream Federation_EventStreamServer) (err error
 			var in *Event
 			select {
 			case <-done:
+				// the session has been closed: stop (without the return this loop spins for ever)
+				return
 			default:
 				in, err = stream.Recv()
 				if err != nil {
